@@ -160,8 +160,11 @@ func (h *clientConnectionHandler) close() {
 		h.connectionsLock.Lock()
 		for clientAddr, holder := range h.connections {
 			delete(h.connections, clientAddr)
-			if err := holder.conn.Close(); err != nil {
-				log.Error().Err(err).Msg(err.Error())
+			// conn is nil when Accept was called for a client that the accept loop has not registered
+			if holder.conn != nil {
+				if err := holder.conn.Close(); err != nil {
+					log.Error().Err(err).Msg(err.Error())
+				}
 			}
 			close(holder.ch)
 		}
